@@ -192,15 +192,16 @@ func (t *translator) emitVarField(name, field string, w *bytes.Buffer) {
 
 // Target names one Go function to translate.
 type Target struct {
-	Func    string            // "RetryOn.CanRetry"
-	Out     string            // Gallina name
-	Params  string            // Gallina binder text, e.g. "(r : Z) (code : Z)"
-	Ret     string            // "bool" | "Z" | "option Z" ... (informational; emitted as the result type)
-	Hints   map[string]string // Go expression source -> Gallina expression
-	SHints  map[string]string // Go statement source -> Gallina let-prefix ("" = drop the statement)
-	Panics  bool              // results wrapped in option; panic(...) => None
-	RetIdx  int               // for multi-value returns: which result to keep
-	Renames map[string]string // Go local/param name -> Gallina name
+	Func      string            // "RetryOn.CanRetry"
+	Out       string            // Gallina name
+	Params    string            // Gallina binder text, e.g. "(r : Z) (code : Z)"
+	Ret       string            // "bool" | "Z" | "option Z" ... (informational; emitted as the result type)
+	Hints     map[string]string // Go expression source -> Gallina expression
+	SHints    map[string]string // Go statement source -> Gallina let-prefix ("" = drop the statement)
+	Panics    bool              // results wrapped in option; panic(...) => None
+	RetIdx    int               // for multi-value returns: which result to keep
+	AssignRet string            // an assignment to this lvalue (source text) is the function's result
+	Renames   map[string]string // Go local/param name -> Gallina name
 }
 
 type fnctx struct {
@@ -445,6 +446,9 @@ func (c *fnctx) stmts(list []ast.Stmt, rest string) string {
 	case *ast.AssignStmt:
 		if len(x.Lhs) != 1 || len(x.Rhs) != 1 {
 			failf("%s: unsupported multi-assignment %q (add an SHint)", c.t.pos(s), c.t.src(s))
+		}
+		if c.tg.AssignRet != "" && c.t.src(x.Lhs[0]) == c.tg.AssignRet && x.Tok == token.ASSIGN {
+			return c.ret(c.expr(x.Rhs[0]))
 		}
 		id, ok := x.Lhs[0].(*ast.Ident)
 		if !ok {
